@@ -21,6 +21,7 @@ THEOREMS = [
     "TornadoModel.C29.cl_equals_encoded_length",
     "TornadoModel.C29.cl_dropped_when_streaming",
     "TornadoModel.C29.decoded_equals_written",
+    "TornadoModel.C29.decoded_per_content_encoding",
     "TornadoModel.C29.run_transparent",
     "TornadoModel.C29.run_feed_is_writes",
     "TornadoModel.C29.identity_when_not_compressing",
@@ -41,11 +42,13 @@ RULE = ("C02-style programs with chunk sizes around MIN_LENGTH=1024, Content-Typ
 EXHAUSTIVE = {"quick": False, "thorough": False}
 CLAUSE_CAVEATS = [
     "run_transparent / run_feed_is_writes cover exception-free programs (C02.opClean: no handler-set Content-Length / Transfer-Encoding, body-carrying statuses) on non-HEAD requests without an If-None-Match hit; HEAD, 304/204/1xx, handler-set Content-Length and the error path (send_error re-entering finish) are decided by the tie with real zlib",
-    "run_transparent undoes the coding the transform applied (its `gzipping` flag); that the Content-Encoding header on the wire says gzip exactly then is vary/shape-level in Lean (transformFirst_shape) and checked on the wire by the oracle",
+    "decoded_per_content_encoding additionally assumes no handler-set Content-Encoding (opClean29); with one, the client-side decoding is the handler's business (ASSUMPTIONS) and run_transparent still gives the framing + body",
     "cl_equals_encoded_length is transform level; on the wire, run_transparent gives 'exactly one response, nothing left over' under Content-Length framing (so the declared length is the encoded body length) for clean programs only",
 ]
 CLAUSES = {
     "a client that decodes the body according to Content-Encoding obtains exactly the bytes written":
+        "decoded_per_content_encoding (run level, literal: strict client on the model's wire bytes; Content-Encoding header = gzip iff compressed; "
+        "Spec.decodeBody per that header = the program's writes; clean programs without handler Content-Encoding, under the gzip contract) + "
         "run_transparent (run level: strict client on the model's wire bytes, then gunzip iff the transform compressed, = the program's "
         "writes; clean programs, all framings, under the gzip contract) + run_feed_is_writes (transform fed exactly the writes, "
         "closed once at the end; no contract) + decoded_equals_written / identity_when_not_compressing (transform level); "
